@@ -303,7 +303,7 @@ def nonspace_tokens(text):
         t = toks[i]
         if t[0] == 'UNICODE-RANGE' and _IDENTLIKE(t[1][2:]):
             rest = t[1][2:]
-            if i + 1 < len(toks) and toks[i + 1][0] == 'IDENT' and (toks[i + 1][2], toks[i + 1][3]) == (t[2], t[3] + len(t[1])):
+            if i + 1 < len(toks) and toks[i + 1][0] == 'IDENT':  # (white space would be a token of its own)
                 rest += toks[i + 1][1]
                 i += 1
             out += [('IDENT', t[1][0]), ('CHAR', '+'), ('IDENT', rest)]
